@@ -344,8 +344,9 @@ def handle : List String → Option String
     | _ => none
   | "SIG" :: toks => do
     let cs ← parseCmds toks
-    -- the signature of the flattened command list (any callback: interior vertices are irrelevant)
-    pure (showSig (signature (flattenCmds (fun _ _ _ => []) ⟨0.0, 0.0⟩ cs)))
+    -- the signature of the spliced command list: LineTo's and Join's tests are both Point.Equals
+    -- (any callback: interior vertices are irrelevant)
+    pure (showSig (signature (replaceCmds ptEquals ptEquals (fun _ _ _ => []) ⟨0.0, 0.0⟩ cs)))
   | _ => none
 
 def main : IO Unit := runDriver handle
